@@ -200,3 +200,15 @@ Proof.
   split; [vm_compute; reflexivity|]. split; [|split; vm_compute; reflexivity].
   constructor; [|constructor]. exists (nth 0 ex_G {| ne_nm := ""; ne_at := []; ne_preds := []; ne_succs := [] |}). cbn. auto.
 Qed.
+
+(* ---- added: node set of the expansion, and list(G.edges(data=True)) enumerates exactly the stored edges *)
+Theorem C11_expand_nodes : forall G flow len x,
+  ne_wf G ->
+  (In x (ne_nkeys (fst (ne_expand_core G flow len))) <-> exists v, ne_inode G v /\ (x = ne_exp0 v \/ x = ne_exp1 v)).
+Proof. exact expand_nodes_rel. Qed.
+Print Assumptions C11_expand_nodes.
+
+Theorem C11_edges_view_complete : forall G flow len x,
+  In x (ne_edges_view (fst (ne_expand_core G flow len))) <-> In x (ne_xe (fst (ne_expand_core G flow len))).
+Proof. exact expand_edges_view. Qed.
+Print Assumptions C11_edges_view_complete.
